@@ -27,6 +27,7 @@
 #include "ascon-select-backend.h"
 #include "ascon-sliced32.h"
 #include "ascon-util.h"
+#include "ascon-verif.h"
 
 #if defined(ASCON_BACKEND_C32)
 
@@ -72,7 +73,10 @@ void ascon_permute(ascon_state_t *state, uint8_t first_round)
     x2_o = ~x2_o;
 
     /* Perform all permutation rounds */
-    while (first_round < 12) {
+    while (first_round < 12)
+    ASCON_VERIF_LOOP(permute_c32)
+    {
+        ASCON_VERIF_GHOST(permute_c32_top)
         /* Add the round constants for this round to the state */
         x2_e ^= rc[0];
         x2_o ^= rc[1];
@@ -119,6 +123,7 @@ void ascon_permute(ascon_state_t *state, uint8_t first_round)
 
         /* Move onto the next round */
         ++first_round;
+        ASCON_VERIF_GHOST(permute_c32_bottom)
     }
 
     /* Apply the final NOT to x2 */
